@@ -490,7 +490,7 @@ def r05_1(ctx):
         else:
             only_toml = b.id not in reach
             ctx.ob(key + ":toml-only", only_toml, site(b, bb), "reached only through the TOML entry point (TOML must buffer)" if only_toml else "a streaming path reads the whole input before translating (unbounded memory, no streaming)")
-    ctx.ob("slurp-sites", n >= 2, "lib", f"{n} slurping call site(s) classified")
+    ctx.ob("slurp-sites", n >= 1, "lib", f"{n} slurping call site(s) classified")
     # the CLI hands its inputs to the library as they are (mapping or reader): it never reads one up itself
     for entry, b, bb, t in deny.hits(ctx.bin.bodies, "slurp"):
         ctx.ob(f"cli:{entry}:{b.name}", False, site(b, bb), f"the CLI reads a whole input into memory ({fn_of(t)['def']}) before translating: no streaming for that input")
